@@ -249,6 +249,18 @@ impl Run {
             extra: BTreeMap::new(),
             replay_ran: false,
         };
+        // watchdog: a check that hangs (or takes absurdly long) is an infrastructure problem, exit 2
+        {
+            let tier_s = args.get(1).cloned().or_else(|| std::env::var("VERIF_TIER").ok()).unwrap_or_default();
+            let default_s: u64 = if tier_s == "thorough" { 4 * 3600 } else { 1200 };
+            let limit = std::env::var("VERIF_WATCHDOG_S").ok().and_then(|s| s.parse::<u64>().ok()).unwrap_or(default_s);
+            let id = args.first().cloned().unwrap_or_default();
+            std::thread::spawn(move || {
+                std::thread::sleep(std::time::Duration::from_secs(limit));
+                eprintln!("WATCHDOG property={id}: no result after {limit} s - inconclusive (not a violation)");
+                std::process::exit(2);
+            });
+        }
         if args.len() >= 3 && args[0] == "replay" {
             let text = std::fs::read_to_string(&args[2]).ok()?;
             let v: Value = serde_json::from_str(&text).ok()?;
